@@ -57,7 +57,8 @@ Lemma deser_hostname_esc o opt s : escaped (deser_hostname_gen true o opt s) = f
 Proof.
   unfold deser_hostname_gen. apply req_or_none_esc.
   destruct (strip_prefix _ _).
-  - destruct (deser_path_cases o opt (o_pathstr o (take_line s0))) as [(a & p & H & _)|[(H & _)|H]];
+  - cbv zeta iota.
+    destruct (deser_path_cases o opt (encode (o_pathstr o (take_line s0)))) as [(a & p & H & _)|[(H & _)|H]];
       rewrite H; reflexivity.
   - destruct (o_resolve o _); reflexivity.
 Qed.
@@ -265,7 +266,8 @@ Proof.
   - (* Hostname *)
     unfold deser_hostname_gen in H. apply req_or_none_ok in H. destruct H as [(-> & -> & E)|(E & H)]; [auto|].
     right. apply is_nil_false in E. destruct (strip_prefix _ _) eqn:P.
-    + destruct (deser_path_cases o opt (o_pathstr o (take_line s0))) as [(a & p & D & _)|[(D & _)|D]];
+    + cbv zeta iota in H.
+      destruct (deser_path_cases o opt (encode (o_pathstr o (take_line s0)))) as [(a & p & D & _)|[(D & _)|D]];
         rewrite D in H; try discriminate; injection H as <-; (split; [discriminate|]);
         (split; [discriminate|right; reflexivity]).
     + destruct (o_resolve o _) eqn:R; try discriminate. injection H as <-.
